@@ -63,7 +63,46 @@ def f(a=0, b=2, *rest, **kw):
     if a == "big":
         return [b] * 300
     return [a, b, list(rest), sorted(kw.items())]
+
+
+# same short name in different namespaces (the arrayer must keep them apart)
+@task(namespace="alpha", name="transform")
+def alpha_transform(x=0, scale=1):
+    return ("alpha", x * scale + 1)
+
+
+@task(namespace="beta", name="transform")
+def beta_transform(x=0, scale=1):
+    if x < 0:
+        raise ValueError("beta.transform: negative input", x)
+    return ("beta", x * scale * 100)
+
+
+@task(name="transform")
+def plain_transform(x=0, scale=1):
+    return ("c32", [x, scale])
+
+
+@task(namespace="alpha", name="other")
+def alpha_other(x=0, scale=1):
+    return ("alpha-other", x - scale)
 '''
+TASK_ATTRS = ["alpha_transform", "beta_transform", "plain_transform", "alpha_other", "f"]
+
+
+class FakeJob:
+    """what the arrayer / executor read from a scheduler Job"""
+
+    def __init__(self, task, args, kwargs, options, eval_hash):
+        self.task, self.args, self.eval_hash, self._options = task, (args, kwargs), eval_hash, dict(options)
+        self.id = "j" + eval_hash[:8]
+        self.execution = None
+
+    def get_options(self):
+        return dict(self._options)
+
+    def get_option(self, key, default=None):
+        return self._options.get(key, default)
 
 
 # ---------------------------------------------------------------------------------------------
@@ -186,6 +225,12 @@ class Real:
     def local(self, args, kwargs):
         try:
             return ("ret", self.task.func(*args, **kwargs))
+        except Exception as e:  # noqa
+            return ("exc", e)
+
+    def local_task(self, task, args, kwargs):
+        try:
+            return ("ret", task.func(*args, **kwargs))
         except Exception as e:  # noqa
             return ("exc", e)
 
@@ -391,7 +436,8 @@ class Check(PropertyCheck):
     module = "Props.C32"
     theorems = ["C32_single_eq_local", "C32_single_eq_local_fresh", "C32_array_elem_eq_local",
                 "C32_array_elem_eq_local_batch", "C32_own_paths", "C32_array_index_env", "C32_jobname_roundtrip",
-                "C32_jobname_roundtrip_hex", "C32_eval_hashes_file", "C32_reunite_only_same_hash", "C32_nonvacuous"]
+                "C32_jobname_roundtrip_hex", "C32_eval_hashes_file", "C32_reunite_only_same_hash", "C32_nonvacuous",
+                "C32_array_group_own_task", "C32_array_group_elem_eq_local", "C32_grouping_by_name_refuted"]
     extra_modules = ["Base.Lit", "Model.ScratchCases"]
     allowed_axioms = []
     section_premises = [
@@ -437,7 +483,8 @@ class Check(PropertyCheck):
         import time
         try:
             for name, fn in (("pure", self._pure_cases), ("protocol", lambda: self._protocol_cases(real)),
-                             ("reunite", lambda: self._reunite_cases(real))):
+                             ("reunite", lambda: self._reunite_cases(real)),
+                             ("grouping", lambda: self._group_cases(real))):
                 t0 = time.time()
                 fn()
                 self.stat("timing_s", "correspond_generate_" + name, round(time.time() - t0, 1))
@@ -871,6 +918,139 @@ class Check(PropertyCheck):
             shutil.rmtree(real.dir / prefix, ignore_errors=True)
         self._run_terms("C32r", terms, descr, "model == AWSBatchExecutor.gather_inflight_jobs on generated batch listings", chunk=60)
 
+
+    # ------------------------------------------------------------------ array path (arrayer + submission)
+    def _job_mix(self, real, g):
+        """jobs of several tasks, incl. the same short name in different namespaces, equal / different options"""
+        r = self.rng
+        n = r.choice([2, 3, 4, 4, 5, 6, 8])
+        attrs = r.choice([["alpha_transform", "beta_transform"], ["alpha_transform", "beta_transform", "plain_transform"],
+                          TASK_ATTRS, ["alpha_transform", "alpha_other"], ["beta_transform"], TASK_ATTRS[:4]])
+        optsets = r.choice([[{}], [{}], [{"memory": 1}], [{}, {"memory": 2}], [{"memory": 1, "vcpus": 2}, {"vcpus": 2, "memory": 1}],
+                            [{"batch_tags": {"a": "b c"}}, {}]])
+        spec = []
+        for i in range(n):
+            attr = r.choice(attrs)
+            if attr == "f":
+                a, kw = g.argset()
+            else:
+                a = (r.choice([i, i + 10, -7, 3]),) if r.random() < 0.9 else ()
+                kw = {"scale": r.choice([2, 3])} if r.random() < 0.4 else {}
+            spec.append((attr, a, kw, r.choice(optsets)))
+        return spec
+
+    def _mk_jobs(self, real, spec):
+        g = Gen(self.rng)
+        jobs = []
+        for attr, a, kw, opts in spec:
+            task = getattr(real.wf, attr)
+            h = hashlib.sha1(repr((task.fullname, a, kw)).encode()).hexdigest()
+            jobs.append(FakeJob(task, a, kw, opts, h))
+        return jobs
+
+    def _array_executor(self, prefix):
+        from configparser import ConfigParser
+        from redun.executors.aws_batch import AWSBatchExecutor
+        cp = ConfigParser()
+        cp.read_dict({"b": {"image": "img", "queue": "q", "s3_scratch": prefix, "aws_region": "us-west-2",
+                            "code_package": "False", "min_array_size": "2", "job_stale_time": "100000",
+                            "job_monitor_interval": "100000"}})
+        ex = AWSBatchExecutor("b", config=cp["b"])
+        ex._scheduler = SimpleNamespace(add_job_tags=lambda *a, **k: None, log=lambda *a, **k: None)
+        ex.log = lambda *a, **k: None
+        return ex
+
+    def _run_array_path(self, real, prefix, spec, order_seed=0):
+        """real JobArrayer grouping + real _submit_array_job/_submit_single_job/submit_task (AWS submit call faked),
+        then every submitted command is executed (real oneshot) as the batch service would; returns problems"""
+        import random as _random
+        from redun.executors import aws_batch
+        jobs = self._mk_jobs(real, spec)
+        ex = self._array_executor(prefix)
+        subs = []
+        counter = itertools.count(1)
+
+        def fake_submit(batch_job_args, queue, image=None, job_name="", array_size=0, **kw):
+            jid = f"fb{next(counter)}"
+            subs.append((jid, list(batch_job_args["containerOverrides"]["command"]), array_size))
+            return {"jobId": jid, "jobName": job_name}
+        with mock.patch.object(aws_batch, "batch_submit", fake_submit):
+            try:
+                for j in jobs:
+                    ex.arrayer.add_job(j)
+                groups = {d.key: [j.eval_hash for j in js] for d, js in ex.arrayer.pending.items()}
+                for d in list(ex.arrayer.pending):
+                    ex.arrayer.submit_pending_jobs(d)
+            finally:
+                ex.arrayer.stop()
+        problems = []
+        rnd = _random.Random(order_seed)
+        for jid, command, size in subs:
+            elems = list(range(size)) if size else [None]
+            rnd.shuffle(elems)
+            for i in elems:
+                key = jid if i is None else f"{jid}:{i}"
+                job = ex.pending_batch_jobs[key]
+                out = real.oneshot(command, {} if i is None else {ENV_VARS[0]: str(i)})
+                rem = real.collect(prefix, job, out[0] == "ret")
+                loc = real.local_task(job.task, *job.args)
+                if not same_outcome(rem, loc):
+                    problems.append(f"{job.task.fullname}{job.args!r} submitted in "
+                                    f"{'an array of ' + str(size) if size else 'a single job'} whose command names "
+                                    f"{command[-1]}: remote {show(rem)} differs from local {show(loc)}")
+        return problems, groups, jobs, subs
+
+    def _group_cases(self, real):
+        from redun.job_array import JobDescription
+        g = Gen(self.rng)
+        n = 60 if self.tier == "quick" else 1500
+        terms, descr = [], []
+        for k in range(n):
+            spec = self._job_mix(real, g)
+            jobs = self._mk_jobs(real, spec)
+            infos = []
+            for j in jobs:
+                ns = j.task.namespace or ""
+                opts = str(sorted(j.get_options().items()))
+                info = f"{{| t_ns := {cs(ns)}; t_name := {cs(j.task.name)}; t_opts := {cs(opts)} |}}"
+                infos.append(info)
+                terms.append(f"bytes_eq (descr_key shipped {info}) {cs(JobDescription(j).key)} && "
+                             f"bytes_eq (fullname {info}) {cs(j.task.fullname)}")
+                descr.append(("descr_key", j.task.fullname, j.get_options()))
+            # grouping by the real arrayer (no submission)
+            ex = self._array_executor(f"g{k}")
+            try:
+                for j in jobs:
+                    ex.arrayer.add_job(j)
+                groups = {d.key: [j.eval_hash[:6] for j in js] for d, js in ex.arrayer.pending.items()}
+            finally:
+                ex.arrayer.stop()
+            pend = cq_list([f"({cs(j.eval_hash[:6])}, {i})" for j, i in zip(jobs, infos)])
+            for key, hs in groups.items():
+                terms.append(f"list_eq bytes_eq (map fst (group_of shipped snd {pend} {cs(key)})) {cq_list([cs(h) for h in hs])}")
+                descr.append(("group", key, hs, [(a, o) for a, _, _, o in spec]))
+            self.stat("grouping", f"{len(groups)} group(s) of {len(jobs)} jobs")
+            self.count(("group", repr(spec)))
+        self._run_terms("C32g", terms, descr, "model == JobDescription.key / Task.fullname / JobArrayer grouping", chunk=250)
+
+    def _oracle_array_path(self, real):
+        g = Gen(self.rng)
+        n = 40 if self.tier == "quick" else 800
+        fixed = [[("alpha_transform", (1,), {}, {}), ("beta_transform", (2,), {}, {}),
+                  ("alpha_transform", (3,), {"scale": 2}, {}), ("beta_transform", (4,), {"scale": 3}, {})],
+                 [("alpha_transform", (5,), {}, {}), ("beta_transform", (-7,), {}, {})]]
+        for k in range(n):
+            spec = fixed[k] if k < len(fixed) else self._job_mix(real, g)
+            prefix = f"ap{k}"
+            problems, groups, jobs, subs = self._run_array_path(real, prefix, spec, order_seed=k)
+            self.stat("oracle_array_path", f"{len(subs)} submission(s) for {len(jobs)} jobs")
+            self.count(("arraypath", repr(spec)), len(jobs))
+            if problems and len(self.findings) < 40:
+                names = sorted({getattr(real.wf, a).fullname for a, _, _, _ in spec})
+                self.findings.append(Finding(f"arraypath:{'+'.join(names)}"[:200], problems[0],
+                                             {"kind": "arraypath", "spec": repr(spec), "order_seed": k}))
+            shutil.rmtree(real.dir / prefix, ignore_errors=True)
+
     # ------------------------------------------------------------------ oracle
     def oracle(self):
         real = Real()
@@ -884,6 +1064,7 @@ class Check(PropertyCheck):
             import time
             for name, fn in (("jobnames", self._oracle_jobnames), ("single", lambda: self._oracle_single(real)),
                              ("arrays", lambda: self._oracle_arrays(real)),
+                             ("array_path", lambda: self._oracle_array_path(real)),
                              ("subprocess", lambda: self._oracle_subprocess(real)),
                              ("reunite", lambda: self._oracle_reunite(real))):
                 t0 = time.time()
@@ -1113,6 +1294,11 @@ class Check(PropertyCheck):
                                     via=real.oneshot_subprocess if r.get("subprocess") else None)
             if probs:
                 bad = probs[0][1]
+            shutil.rmtree(real.dir / "rp", ignore_errors=True)
+        elif r.get("kind") == "arraypath":
+            probs, _g, _j, _s = self._run_array_path(real, "rp", eval(r["spec"]), order_seed=r.get("order_seed", 0))
+            if probs:
+                bad = probs[0]
             shutil.rmtree(real.dir / "rp", ignore_errors=True)
         elif r.get("kind") == "reunite":
             _inf, got = self._gather_real(real, "rp", r["name_prefix"], r["listing"])
